@@ -62,11 +62,11 @@ def fill_needs():
             print("no needs_to_manifest for", m["id"])
 
 
-def ingest(src, prop):
+def ingest(src, prop, offset=0):
     n = 0
     for d in sorted(glob.glob(os.path.join(src, "seed*.diff"))):
         i = os.path.basename(d)[4:-5]
-        sid = "%s-s%s" % (prop, i)
+        sid = "%s-s%s" % (prop, int(i) + offset if i.isdigit() else i)
         dst = os.path.join(SEEDED, sid)
         os.makedirs(dst, exist_ok=True)
         shutil.copy(d, os.path.join(dst, "patch.diff"))
@@ -151,7 +151,7 @@ def run_checks(sid, props):
 def main():
     cmd = sys.argv[1]
     if cmd == "ingest":
-        ingest(sys.argv[2], sys.argv[3])
+        ingest(sys.argv[2], sys.argv[3], int(sys.argv[4]) if len(sys.argv) > 4 else 0)
         return
     if cmd == "needs":
         fill_needs()
